@@ -230,3 +230,16 @@ pub proof fn lemma_edges_cover_trans(e0: Map<(State, State), Grapheme>, e1: Map<
 }
 
 pub open spec fn edges_wf(e: Map<(State, State), Grapheme>) -> bool { forall|a: State, b: State| #[trigger] e.contains_key((a, b)) ==> e[(a, b)].min <= e[(a, b)].max }
+
+// ---- Dfa::from: every inserted cluster keeps an accepting path while later clusters are inserted
+pub open spec fn accepted_cov(e: Map<(State, State), Grapheme>, init: State, finals: Set<usize>, gs: Seq<Grapheme>) -> bool {
+    exists|last: State| #[trigger] path_cov(e, init, gs, last) && finals.contains(last.ix as usize)
+}
+pub proof fn lemma_accepted_mono(e0: Map<(State, State), Grapheme>, e1: Map<(State, State), Grapheme>, init: State, f0: Set<usize>, f1: Set<usize>, gs: Seq<Grapheme>)
+    requires accepted_cov(e0, init, f0, gs), edges_cover(e0, e1), f0.subset_of(f1)
+    ensures accepted_cov(e1, init, f1, gs)
+{
+    let last = choose|last: State| #[trigger] path_cov(e0, init, gs, last) && f0.contains(last.ix as usize);
+    lemma_path_cov_mono(e0, e1, init, gs, last);
+    assert(path_cov(e1, init, gs, last) && f1.contains(last.ix as usize));
+}
